@@ -232,6 +232,9 @@ def r4(fx):
                     return md[det]
                 genv = encoder_env(fx.forest, it, data_to_bytes=d2b, find_mode=fm)
                 e = dict(genv, data=content, mode=None if req is None else md[req], encoding=None)
+                for p_, d_ in src.param_defaults(fn).items():      # parameters the function has gained take their defaults
+                    if p_ not in ('data', 'mode', 'encoding'):
+                        e[p_] = ev.ev(d_, genv)
                 try:
                     it.block(head, e)
                     got = inv.get(e['segment_mode'], e['segment_mode'])
